@@ -36,6 +36,11 @@ UNITS = [
     U("prepend_str", "String::prepend(this|%s)" % CREF, "c_String_prepend_str", ["prepend_str.other"], defs=["NV_ALIAS=0"], cost=100, tier="thorough"),
     U("prepend_str@self", "String::prepend(this|%s)" % CREF, "c_String_prepend_str", ["prepend_str.self"], defs=["NV_ALIAS=1"], cost=100),
     U("eq", None, None, ["eq.true", "eq.false_content"], funcs=["String::operator==", "String::operator!="]),
+    U("find_char", "String::find($constthis|char)", "c_String_find_char", ["find_char.hit", "find_char.miss"],
+      loops="contracts/string_find.loops.json"),
+    U("findLast_char", "String::findLast($constthis|char)", "c_String_findLast_char", ["findLast_char.hit", "findLast_char.miss"],
+      loops="contracts/string_findlast.loops.json"),
+    U("affix", None, None, ["affix.prefix", "affix.suffix"], funcs=["String::startsWith", "String::endsWith"]),
     U("cstr", None, None, ["cstr.attached"], funcs=["String::operator const char*() const"]),
 ]
 TRUSTED = ["cbmc 6.11.0 / goto-instrument DFCC / CaDiCaL", "goto-cc C++ front end; String.hpp member subset (compat rules R2-R4)",
@@ -48,7 +53,7 @@ ASSUMPTIONS = [
     "str[len] == 0 is NOT a representation invariant of String (resize on an empty string leaves the end unterminated; the const char* conversion "
     "repairs lazily): the terminator is proved as postcondition of operator const char*() const",
     "covered members: constructors (default, copy, buffer, capacity), destructor, operator=, clear, attach, resize, reserve, append x3, prepend x2, "
-    "operator const char*() const, ==, !=.  NOT covered: compare/find/replace/case mapping/trim/substr/token/split/join (loops / libc calls), "
+    "operator const char*() const, ==, !=, find(char), findLast(char), startsWith, endsWith.  NOT covered: substr (goto-cc destroys the by-value return temporary before the caller copies it: spurious use-after-free; harness h_substr kept but not registered), compare, replace, case mapping, trim, token/split/join, libc-based find overloads, "
     "printf/scanf family (variadic libc), toBool/fromBool and the char(&)[N] templates (deleted by compat rule R2)",
     "Atomic::increment/decrement sequentially atomic (seam); thread interleavings of C09 not decided",
 ]
